@@ -139,8 +139,22 @@ pub fn const_own(cx: &mut Cx) -> Option<Built> {
     let wraps = cx.wraps(0, false);
     let tt = ty_text(cx.prog, &ty);
     let pre = if annotated { p2(format!("zq0: {} = {}", tt, a), format!("zq0: {} : {}", tt, a)) } else { p2(format!("zq0 := {}", a), format!("zq0 :: {}", a)) };
+    // a decoy: a *mutable* variable of the same name in an inner scope that has ended before the assignment
+    let decoy = match cx.sel.below(8) {
+        0 => format!("if true do\n    zq0 := {}\nend", a),
+        1 => format!("do\n    zq0 := {}\nend", a),
+        2 => format!("case Maybe.Just 1 do\n    Just zqd ->\n        zq0 := {}\n    end\n    else\n    end\nend", a),
+        3 => format!("case Maybe.Just 1 do\n    Just zqd ->\n    end\n    else\n        zq0 := {}\n    end\nend", a),
+        4 => format!("if false do\nelse\n    zq0 := {}\nend", a),
+        _ => String::new(),
+    };
+    let (pre, dv) = if decoy.is_empty() {
+        (pre, "")
+    } else {
+        (P2 { twin: format!("{}\n{}", pre.twin, decoy), bad: format!("{}\n{}", pre.bad, decoy) }, "+decoy")
+    };
     let pieces = Pieces { pre_out: pre, core: both(format!("zq0 {} {}", op, b)), ..Default::default() };
-    Some(built_stmt(cx, site, &pieces, &wraps, "const-own", format!("{}:{}", tt, op), "", wraps.len(), "impure-site", "Assignability"))
+    Some(built_stmt(cx, site, &pieces, &wraps, "const-own", format!("{}:{}{}", tt, op, dv), "", wraps.len(), "impure-site", "Assignability"))
 }
 
 pub fn const_alias(cx: &mut Cx) -> Option<Built> {
